@@ -246,6 +246,10 @@ class Run(object):
                 raise Violation('C16.1', 'x[%d] on %s of length %r raised IndexError' % (i, KINDS[kind][0], v['n']))
             self.out.probe('index_rejected_' + sel)
             return
+        except Exception as e:
+            raise Violation('C16.1', 'x[%d] (%s) on %s of length %r raised %s (%s): an index is either accepted or '
+                            'refused with IndexError' % (i, 'write' if write else 'read', KINDS[kind][0], v['n'],
+                                                         type(e).__name__, e))
         if not accept:
             raise Violation('C16.1', 'x[%d] (%s) on %s of length %r was accepted'
                             % (i, 'write' if write else 'read', KINDS[kind][0], v['n']))
@@ -275,6 +279,9 @@ class Run(object):
                 raise Violation('C16.1', 'x[%d:%d] on length %d raised IndexError' % (i, j, n))
             self.out.probe('slice_rejected')
             return
+        except Exception as e:
+            raise Violation('C16.1', 'x[%d:%d%s] on length %d raised %s (%s): a slice is either accepted or refused '
+                            'with IndexError' % (i, j, ':2' if step else '', n, type(e).__name__, e))
         if not accept:
             raise Violation('C16.1', 'x[%d:%d%s] on length %d was accepted' % (i, j, ':2' if step else '', n))
         if len(s) != j - i:
@@ -295,6 +302,9 @@ class Run(object):
                 return -1 - x % 3
             if sel == 'big':
                 return n + 1 + x % 4
+            if sel == 'huge':
+                # bounds that do not fit a C ssize_t, and the extremes that just do
+                return [2 ** 63, 2 ** 70 + x % 5, -2 ** 63 - 1, -2 ** 70, 2 ** 63 - 1, -2 ** 63, 2 ** 64, 2 ** 64 + n][x % 8]
             return n
         return one(si, 1), one(sj, 7)
 
@@ -558,7 +568,7 @@ class C16(core.Check):
     def generate(self, rng, idx, tier):
         ops = [['new', rng.choice(KNAMES), rng.randint(0, 8), False]]
         sel = ['in', 'in', 'in', 'in', 'neg', 'eq', 'big', 'huge', 'ssmax', 'ssmin']
-        ssel = ['in', 'in', 'in', 'in', 'neg', 'big', 'eq']
+        ssel = ['in', 'in', 'in', 'in', 'in', 'in', 'in', 'in', 'neg', 'neg', 'big', 'big', 'eq', 'eq', 'huge']
         faulty = rng.chance(0.5)
         for _ in range(rng.randint(4, 50)):
             n = rng.weighted([('new', 5), ('index', 30), ('slice', 14), ('sassign', 16), ('arith', 10), ('diff', 4),
